@@ -241,13 +241,22 @@ fn sc_expect(rec: &mut Rec, lib: &dyn Lib, g: Grp, orig: &SignCryptFields, msg: 
     let same_value = parsed.as_ref().map(|f| {
         Pt::from_bytes(&f.u).is_some() && Pt::from_bytes(&f.u) == Pt::from_bytes(&orig.u) && f.v == orig.v && Pt::from_bytes(&f.w).is_some() && Pt::from_bytes(&f.w) == Pt::from_bytes(&orig.w) && norm_scheme(f.scheme) == norm_scheme(orig.scheme)
     }) == Some(true);
-    let v = rec.call(lib, g, Op::ScValid, &[bytes]);
+    // the order in which a recipient asks "is it valid?" and "decrypt" is drawn per ciphertext (from its bytes):
+    // a party may well open what it received without asking for validity first
+    let order = bytes.iter().fold(0u8, |a, b| a ^ b) & 1;
+    let mut v = Out::Rej(String::new());
+    if order == 0 {
+        v = rec.call(lib, g, Op::ScValid, &[bytes]);
+    }
     let d = rec.call(lib, g, Op::ScDecrypt, &[bytes, sk]);
     let dk = rec.call(lib, g, Op::ScDecKey, &[sk, bytes]);
     let d2 = match dk.first() {
         Some(k) => rec.call(lib, g, Op::DkDecrypt, &[k, bytes]),
         None => Out::Rej("no key".into()),
     };
+    if order == 1 {
+        v = rec.call(lib, g, Op::ScValid, &[bytes]);
+    }
     let valid = v.flag() == Some(true);
     let key = format!("{} scheme={} g={}", label, scheme_name(scheme), g.name());
     if same_value {
